@@ -475,6 +475,7 @@ fn graph_case(item: u64, rng: &mut Rng, acc: &mut Acc, which: Which, quick: bool
             o.named_prob = 0.4;
         }
         Which::C11 => o.allow_single_external = false,
+        Which::C02 => o.disconnected_prob = 0.15,
         _ => {}
     }
     let mix = if which == Which::C08 || which == Which::C09 { 4 } else { 2 };
